@@ -80,7 +80,11 @@ def load(
 def get_text_from(path, encoding=None) -> str:
     try:
         p = Path(path)
-        return p.read_text(encoding=encoding)
+        # No newline translation: load() gives the same characters whether
+        # a label is read from its path or from a stream of its bytes, and
+        # whether or not undecodable data follow it.
+        with p.open(encoding=encoding, newline="") as f:
+            return f.read()
     except UnicodeDecodeError:
         # This may be the result of an ISIS cube file (or anything else)
         # where the first set of bytes might be decodable, but once the
